@@ -9,6 +9,8 @@ specialised per length, ASCII spellings):
              get_gender returns 'M' or 'F' (or None), get_birth_year/month an int (or None);
  C12.split   the parts returned by split() are the positions of the canonical number, in order,
              each exactly once."""
+import ast
+
 from ..common import Report, rel, src
 from .. import scope
 from .c01 import registry_holds
@@ -67,6 +69,58 @@ def thresholds(rep, prog):
                           'getter\'s boundary are accepted by validate() but classified differently'
                           % (mn.replace('stdnum.', ''), name, s_, c - 1, c, sorted('%d|%d' % (x - 1, x) for x in vc[s_])),
                           what='%s.%s: %s cut at %d|%d' % (mn, name, s_, c - 1, c))
+    return n
+
+
+def range_cuts(rep, prog):
+    """C12.range-cut: a split that looks a field up in a constant table of (length, low, high) rows compares `low <= field <= high`
+    as strings; that is the numeric order only when the field is cut to the width of the bounds.  An uncut remainder that starts
+    with the upper bound is longer than it and compares greater: the last code of every range falls through the table."""
+    from ..match import resolve_locals
+    from ..minieval import ev, Undecidable
+    n = 0
+    for mn in prog.number_modules():
+        m = prog.mods[mn]
+        for name, fn in m.funcs.items():
+            for loop in ast.walk(fn):
+                if not (isinstance(loop, ast.For) and isinstance(loop.target, ast.Tuple) and isinstance(loop.iter, ast.Name)
+                        and all(isinstance(e, ast.Name) for e in loop.target.elts)):
+                    continue
+                table = m.consts.get(loop.iter.id)
+                tv = [e.id for e in loop.target.elts]
+                if not (isinstance(table, (tuple, list)) and table and all(isinstance(r, (tuple, list)) and len(r) == len(tv) for r in table)):
+                    continue
+                for c in ast.walk(loop):
+                    if not (isinstance(c, ast.Compare) and len(c.ops) == 2 and all(isinstance(o, (ast.LtE, ast.Lt)) for o in c.ops)
+                            and isinstance(c.left, ast.Name) and c.left.id in tv and isinstance(c.comparators[1], ast.Name) and c.comparators[1].id in tv):
+                        continue
+                    lo_i, hi_i = tv.index(c.left.id), tv.index(c.comparators[1].id)
+                    if not all(isinstance(r[lo_i], str) and isinstance(r[hi_i], str) for r in table):
+                        continue
+                    field = resolve_locals(fn, c.comparators[0])
+                    bad = None
+                    for r in table:
+                        env = dict(zip(tv, r))
+                        w = None
+                        if isinstance(field, ast.Subscript) and isinstance(field.slice, ast.Slice) and field.slice.step is None and field.slice.upper is not None:
+                            try:
+                                a = ev(field.slice.lower, env) if field.slice.lower is not None else 0
+                                b = ev(field.slice.upper, env)
+                                if isinstance(a, int) and isinstance(b, int) and 0 <= a <= b:
+                                    w = b - a
+                            except Undecidable:
+                                w = None
+                        if w is None or w != len(r[lo_i]) or w != len(r[hi_i]):
+                            bad = (r, w)
+                            break
+                    n += 1
+                    rep.check(bad is None, 'C12.range-cut', rel(m.path), name, src(c), c.lineno,
+                              '%s is compared with the bounds of row %r as %s: string order agrees with the numeric order of the field only when it is cut to the '
+                              '%d characters of the bounds; a number whose field equals the upper bound (followed by more digits) matches no row and %s() '
+                              'returns nothing for it' % (src(c.comparators[0]), (bad or ((), 0))[0],
+                                                          'a slice of %s characters' % bad[1] if bad and bad[1] is not None else 'an uncut remainder',
+                                                          len(bad[0][lo_i]) if bad else 0, name),
+                              what='%s.%s: %s cut to the width of every row of %s' % (mn, name, src(c.comparators[0]), loop.iter.id))
     return n
 
 
@@ -143,6 +197,8 @@ def check(tier):
     rep.unit('functions', nfun)
     if thresholds(rep, prog) < 1:
         rep.error('C12.threshold matched no getter threshold (be.bis.get_gender confirmed on the reference tree)')
+    if range_cuts(rep, prog) < 1:
+        rep.error('C12.range-cut matched no table lookup by string range (ismn.split confirmed on the reference tree)')
     rep.expect_at_least('C12.total', 60, 'getter functions')
     rep.not_decided = ['that a returned date equals what the digits mean', 'functions with more than one required parameter'] + \
                       ['%s: %s' % kv for kv in sorted(scope.C12_UNDECIDED_SINKS.items())]
